@@ -9,7 +9,8 @@
    returns (Proofs/ParserShape.parse_wf) but every such tree IS returned, for its canonical token sequence, at any
    nesting depth — so the theorems above quantify over exactly the trees the parser can produce. *)
 From Verif Require Import Base.Str Base.Outcome Model.Ast Model.Token Model.Parser Model.Listener
-  Spec.Sem Proofs.ListenerSem Proofs.ListenerFile Proofs.ParserShape Proofs.ParserComplete.
+  Spec.Sem Proofs.ListenerSem Proofs.ListenerFile Proofs.ParserShape Proofs.ParserComplete Model.Lexer Model.Transform Proofs.LexRender
+  Proofs.DeclRoundTrip Proofs.DocLex Proofs.DocParse Proofs.DocNatural Proofs.DocChars Proofs.DocSem Proofs.DocRoundTrip.
 
 (* 1. a non-leading operand (a rewrite or a parenthesised group, nested to any depth) appends exactly its
       denotation and leaves the pending operator, the restrictions and the rewrite stack as they were *)
@@ -56,3 +57,23 @@ Theorem C03_every_grammatical_definition_is_parsed : forall d k,
   p_def (S (depth_def (rd_first d) (rd_rest d))) true (toks_def (rd_first d) (rd_op d) (rd_rest d) ++ k)
   = Some ((rd_first d, rd_op d, rd_rest d), k).
 Proof. exact parser_complete_for_definitions. Qed.
+
+(* 6. ... and for WHOLE DOCUMENTS (model header, type blocks, relation lines; no conditions): the parser model returns the
+      tree for its canonical token sequence, with or without the closing line break *)
+Theorem C03_every_grammatical_document_is_parsed : forall v ts e,
+  tk v = SCHEMA_VERSION -> Forall type_ok ts -> e = [] \/ e = [nl] ->
+  parse (toks_doc_end v ts e) = Some {| f_header := HModel v; f_types := ts; f_conds := [] |}.
+Proof. exact parse_complete_end. Qed.
+
+(* 7. the parser reads token KINDS only, on whole documents (conditions and module headers included): relabelling the
+      tokens — other texts, other positions, i.e. another layout with the same token kinds — commutes with parsing *)
+Theorem C03_document_parser_reads_kinds_only : forall (g : tok -> tok), (forall t, tk (g t) = tk t) ->
+  forall ts, parse (map g ts) = option_map (file_map g) (parse ts).
+Proof. exact parse_map. Qed.
+
+(* 8. characters included, for the canonical layout: the pre-pass, the lexer model, the parser model and the listener model
+      accept the text of a canonical document (plain names) and return exactly the denotation of the tree that was written *)
+Theorem C03_canonical_layout_yields_the_model_written : forall v ts,
+  std_version v = true -> Forall type_lex_ok ts -> Forall type_ok ts -> distinct_decls (doc_file v ts) ->
+  exists exts md, dsl_to_model (text_of (ctoks_doc v ts) ++ [10]) = DOk (sem_file (doc_file v ts)) exts md.
+Proof. exact canonical_document_accepted. Qed.
